@@ -57,14 +57,22 @@ def shards(tier, seed):
     out = [{"name": f"sched{i}", "kind": "sched", "scen": s, "budget": 45 if q else 600} for i, s in enumerate(scen)]
     for i in range(2 if q else 8):
         out.append({"name": f"stress{i}", "kind": "stress", "runs": 250 if q else 6000, "p": [0.05, 0.15][i % 2]})
+    # write buffers of hundreds of KiB: messages of 20..130 KiB, the far end reading while the node writes, write plans
+    # whose partial writes are tens of KiB long and whose soft errors fall between two large writes
+    for i in range(2 if q else 6):
+        out.append({"name": f"big{i}", "kind": "stress", "big": True, "runs": 30 if q else 400, "p": [0.0, 0.05][i % 2]})
     return out
 
 
-def make_msg(tag, bad=False):
-    """A DWR-like request carrying a unique id; bad=True makes it unencodable."""
+def make_msg(tag, bad=False, pad=0):
+    """A DWR-like request carrying a unique id; bad=True makes it unencodable; pad = octets of ballast."""
     from diameter.message.commands import CreditControlRequest
     m = CreditControlRequest()
     m.session_id = tag
+    if pad:
+        from diameter.message.avp import Avp
+        seed = sum(map(ord, tag))
+        m.append_avp(Avp.new(25, value=bytes((seed + i * 131) % 256 for i in range(251)) * (pad // 251 + 1)))
     m.origin_host = b"node.verif.example"
     m.origin_realm = b"verif.example"
     m.destination_realm = b"verif.example"
@@ -357,13 +365,35 @@ def run_stress(spec):
         with h.cv:
             h.free_running = True
             h.cv.notify_all()
+        big = bool(spec.get("big"))
+        big_bytes = 0
+        if big:
+            shape = [(3, 4), (2, 3)]
+            drain_on = threading.Event()
+            drain_on.set()
+
+            def drainer():
+                # the far ends read while the node writes (otherwise the kernel buffer fills and nothing moves)
+                while drain_on.is_set():
+                    for sp in sps:
+                        try:
+                            while sp.sock.recv(1 << 20):
+                                pass
+                        except OSError:
+                            pass
+                    time.sleep(0.0005)
+            dth = threading.Thread(target=drainer, daemon=True)
+            dth.start()
         for run in range(spec["runs"]):
             plans, tx0, msgs = [], [], []
             for ci, sp in enumerate(sps):
                 plan = []
                 for _ in range(rng.randrange(0, 12)):
                     r = rng.random()
-                    plan.append(("cap", rng.choice([1, 2, 5, 19, 20, 21, 100])) if r < 0.6 else
+                    caps = [1, 2, 5, 19, 20, 21, 100]
+                    if big:
+                        caps = [1, 100, 4096, 65535, 65536, 65537, 100000, 131072, 150000, 1 << 20, 1 << 22]
+                    plan.append(("cap", rng.choice(caps)) if r < 0.6 else
                                 ("err", rng.choice([errno.EAGAIN, errno.EINTR, errno.ENOBUFS])))
                 if ci == 1 and run % 2:
                     # the second connection starts with soft errors while the first one writes
@@ -380,8 +410,11 @@ def run_stress(spec):
                 for ti in range(nt):
                     for k in range(nm):
                         bad = bad_at == (ti, k)
-                        m = make_msg(f"r{run};c{ci};t{ti};m{k}", bad=bad)
+                        m = make_msg(f"r{run};c{ci};t{ti};m{k}", bad=bad,
+                                     pad=rng.choice([20000, 40000, 66000, 130000]) if big else 0)
                         mm[(ti, k)] = (m, None if bad else m.as_bytes())
+                        if big and not bad:
+                            big_bytes += len(mm[(ti, k)][1])
                 msgs.append(mm)
             # every third run the producers are paced, so that the write thread catches up and goes back to waiting
             # between two calls (the hand-over "queue empty -> wait" is then exercised at every message, not only
@@ -473,7 +506,17 @@ def run_stress(spec):
             for sp in sps:
                 sp.drain()
                 sp.frames.clear()
+                sp.rxbuf.clear()
+                if big:     # the record of what was written is only needed per run
+                    del sp.node_sock.tx[:]
+            if big:
+                from vf.simnet.harness import HLOCK
+                with HLOCK:
+                    del h.events[:]
         y.on = False
+        if big:
+            drain_on.clear()
+            dth.join(5)
     finally:
         try:
             y.stop()
@@ -481,8 +524,10 @@ def run_stress(spec):
             pass
         w.teardown()
     return {"evaluations": evals, "hashes": sorted(hashes), "witnesses": wit,
-            "samples": [{"stress_runs": evals, "messages_per_run": 26, "connections": 2, "p_yield": spec["p"]}],
-            "coverage": {"stress_runs": evals, "stress_runs_with_paced_producers": paced_runs,
+            "samples": [{"stress_runs": evals, "messages_per_run": sum(a * b for a, b in shape), "connections": 2,
+                         "p_yield": spec["p"], "big": big}],
+            "coverage": {"stress_runs": evals, "stress_runs_with_big_messages": evals if big else 0,
+                         "stress_bytes_in_big_messages": big_bytes if big else 0, "stress_runs_with_paced_producers": paced_runs,
                          "stress_runs_with_soft_errors_on_second_connection": soft_on_second,
                          "stress_runs_completed_after_more_than_10s": late_runs, "stress_slowest_run_s": slowest,
                          "yields_injected": y.yields, "write_plan_entries_delivered": delivered_faults}}
